@@ -219,7 +219,7 @@ impl RegistryCore {
 
                 // Add registry common labels, if any.
                 if let Some(ref hmap) = self.labels {
-                    let pairs: Vec<proto::LabelPair> = hmap
+                    let mut pairs: Vec<proto::LabelPair> = hmap
                         .iter()
                         .map(|(k, v)| {
                             let mut label = proto::LabelPair::default();
@@ -228,6 +228,9 @@ impl RegistryCore {
                             label
                         })
                         .collect();
+                    // The map's iteration order is per-process random; keep
+                    // the exposition deterministic.
+                    pairs.sort();
 
                     for metric in m.mut_metric().iter_mut() {
                         let mut labels: Vec<_> = metric.take_label();
